@@ -10,6 +10,7 @@ package main
 //c01:entry l3(int) int,string
 //c01:entry l4(int,int) int,int
 //c01:entry l5(int) int
+//c01:entry l6(int,int) int,int
 
 var G0 int = 0
 
@@ -128,4 +129,26 @@ func l5(a int) (r int) {
 	r += len(arr) // no dereference
 	r += arr[1]   // dereference
 	return r
+}
+
+func l6(a, b int) (int, int) {
+	p := P{a, b}
+	arr := [3]int{a, b, a + b}
+	q := &Q{A: p, Cs: arr}
+	s1 := p.X + arr[2] + q.A.Y
+	p = P{}       // resets an initialised variable
+	arr = [3]int{} // likewise
+	q.A = P{Y: 1}  // partial literal zeroes the other field
+	*q = Q{B: &p}
+	var r P
+	for i := 0; i < 3; i++ {
+		r = P{X: i} // Y must be reset in every iteration
+		if i == 1 {
+			r.Y = 50 + b
+		}
+	}
+	ps := []P{{a, b}, {b, a}}
+	ps[0] = P{}
+	ps[1] = P{X: ps[1].Y}
+	return s1, p.X + p.Y + arr[0] + arr[1] + arr[2] + q.A.X + q.A.Y + q.Cs[1] + r.X*100 + r.Y + ps[0].X + ps[1].X*1000 + ps[1].Y
 }
